@@ -25,10 +25,15 @@ RULE = ('cases = (record, dt) pairs driven through the public eqsig.im functions
         'reciprocals 1/k (k=49,93,98,99,...), classes envelope-noise / all-below / quake / exact-gate (built in g '
         'units on exactly representable levels incl. 0.025 and its two neighbours) / boundary-spike (a spike just '
         'before a window boundary over distinct per-window background levels) / generic / near-gate-inexact (window '
-        'maxima within 4 ulp of 0.025*9.81 in m/s2: knife-edge rule). distinct = digest(values, dt, part); '
+        'maxima within 4 ulp of 0.025*9.81 in m/s2: knife-edge rule). Same-object histories: one AccSignal, 3..8 '
+        'monitored calls drawn with repeats from all eight measures (CAVdp when in its quantifier), interleaved with '
+        'reads of velocity/displacement/pgv/pgd/pga and the mutators add_constant / reset_values / butter_pass; '
+        'non-trivial = the velocity changes sign at least 3 times. distinct = digest(values, dt, part); '
         'non-trivial = record with a non-zero sample.')
 ASSUMPTIONS = ['NaN-free real records, n >= 2, dt > 0; float64 arithmetic (float32 containers are not driven)',
-               'velocity is the AccSignal.velocity series (its correctness is C08)',
+               'velocity is, by definition (C08), the cumulative trapezoid of the record with v[0]=0; the oracle '
+               'computes it from (values, dt) at call entry and never reads the object\'s cached series; '
+               'generate_displacement_and_velocity_series(trap=False) is not driven',
                '"rectangle sum" does not fix the side: all-sample, left and right sums are all accepted for the '
                '|a| and |v| integrals',
                'CAVdp is judged only when 1/dt is an integer up to rounding and the record spans >= 2 s; '
@@ -74,19 +79,38 @@ def _sig(args, kwargs):
     return args[0] if args else next(iter(kwargs.values()))
 
 
-def _wit(asig, key, **kw):
-    d = {'fn': FN[key], 'acc': np.asarray(asig.values), 'dt': float(asig.dt)}
+# same-object history being driven (so that a witness taken inside it can be replayed from the fresh object)
+HIST = {'on': False, 'acc0': None, 'dt': None, 'ops': []}
+
+
+def _wit(key, acc, dt, **kw):
+    d = {'fn': FN[key], 'acc': np.asarray(acc), 'dt': float(dt)}
+    if HIST['on']:
+        d['history'] = {'acc0': HIST['acc0'], 'dt': HIST['dt'], 'ops': list(HIST['ops'])}
     d.update(kw)
     return d
 
 
-def _shape_clauses(ctx, key, asig, result, n):
+_VEL = {'key': None, 'val': None}
+
+
+def _velocity(acc, dt):
+    """Oracle velocity of the record, computed from (values, dt) only - never from the object's cached series, which
+    an earlier call on the same object may have altered. Returns (v list, rounding bound, sum |v|)."""
+    key = (acc.tobytes(), dt)
+    if _VEL['key'] != key:
+        v, err = Q.velocity(acc.tolist(), dt)
+        _VEL['key'], _VEL['val'] = key, (v, err, sum(abs(x) for x in v))
+    return _VEL['val']
+
+
+def _shape_clauses(ctx, key, acc, dt, result, n):
     """length and monotonicity; returns the series as float array, or None when there is no final value to judge."""
     try:
         r = np.asarray(result, dtype=float)
     except Exception:
         r = np.zeros((0, 0))
-    ctx.check(r.ndim == 1 and r.shape[0] == n, key + '.length', lambda: _wit(asig, key, got_shape=list(r.shape)),
+    ctx.check(r.ndim == 1 and r.shape[0] == n, key + '.length', lambda: _wit(key, acc, dt, got_shape=list(r.shape)),
               '%s returned shape %s for a record of %d samples' % (FN[key], r.shape, n))
     if r.ndim != 1 or r.shape[0] == 0:
         return None
@@ -95,64 +119,64 @@ def _shape_clauses(ctx, key, asig, result, n):
         ctx.ok(key + '.monotone')
     else:
         step = float(np.min(np.diff(r))) if r.shape[0] > 1 else None
-        ctx.violation(key + '.monotone', _wit(asig, key, min_step=step),
+        ctx.violation(key + '.monotone', _wit(key, acc, dt, min_step=step),
                       '%s series is not finite and non-decreasing (min step %r)' % (FN[key], step))
     return r    # the final value of a wrong-length (non-empty) series is still judged
 
 
-def check_quadrature(ctx, key, asig, result):
-    """Post-condition of the seven quadrature-defined measures."""
-    acc = np.asarray(asig.values, dtype=float)
+def check_quadrature(ctx, key, acc_in, dt, result):
+    """Post-condition of the seven quadrature-defined measures; acc_in, dt = the object's values and step at call
+    entry. Everything expected is derived from these two alone."""
+    acc = np.asarray(acc_in, dtype=float)
     n = acc.shape[0] if acc.ndim == 1 else 0
-    dt = float(asig.dt)
     if n < 1 or not np.all(np.isfinite(acc)) or not (dt > 0):
         ctx.observe('out-of-domain-call(empty/NaN/dt<=0)')
         return
-    r = _shape_clauses(ctx, key, asig, result, n)
+    r = _shape_clauses(ctx, key, acc_in, dt, result, n)
     if r is None:
         return
     got = float(r[-1])
-    a = acc.tolist()
-    if key in ('isv', 'abs_vel', 'cad', 'uke'):
-        with attach.paused():
-            v = np.asarray(asig.velocity, dtype=float).tolist()
     atol = 0.0
     if key == 'arias':
-        refs = [Q.arias_final(a, dt)]
+        refs = [Q.arias_final(acc.tolist(), dt)]
     elif key == 'cav':
-        refs = [Q.cav_final(a, dt)]
-    elif key == 'isv':
-        refs = [Q.isv_final(v, dt)]
+        refs = [Q.cav_final(acc.tolist(), dt)]
     elif key == 'abs_acc':
-        refs = sorted(set(Q.rectangle_finals(a, dt).values()))
-    elif key in ('abs_vel', 'cad'):
-        refs = sorted(set(Q.rectangle_finals(v, dt).values()))
+        refs = sorted(set(Q.rectangle_finals(acc.tolist(), dt).values()))
     else:
-        ref, sumabs = Q.unit_kinetic_energy_final(v)
-        refs = [ref]
-        atol = 8 * Q.EPS * sumabs
+        v, verr, sumabs_v = _velocity(acc, dt)
+        if key == 'isv':
+            refs = [Q.isv_final(v, dt)]
+            atol = 2 * verr * sumabs_v * dt
+        elif key in ('abs_vel', 'cad'):
+            refs = sorted(set(Q.rectangle_finals(v, dt).values()))
+            atol = verr * n * dt
+        else:
+            ref, sumabs_k = Q.unit_kinetic_energy_final(v)
+            refs = [ref]
+            atol = 8 * Q.EPS * sumabs_k + 2 * verr * sumabs_v
     okk = np.isfinite(got) and any(abs(got - ref) <= atol + RTOL * abs(ref) for ref in refs)
-    ctx.check(okk, FINAL_CLAUSE[key], lambda: _wit(asig, key, got_final=got, expected=refs),
-              '%s final value %r, defining quadrature gives %r (n=%d dt=%r)' % (FN[key], got, refs, n, dt))
+    ctx.check(okk, FINAL_CLAUSE[key], lambda: _wit(key, acc_in, dt, got_final=got, expected=refs, atol=atol),
+              '%s final value %r, defining quadrature of the record gives %r (n=%d dt=%r%s)'
+              % (FN[key], got, refs, n, dt, ', call %d of a same-object history' % len(HIST['ops']) if HIST['on'] else ''))
 
 
-def check_cav_dp(ctx, asig, result):
-    acc = np.asarray(asig.values, dtype=float)
+def check_cav_dp(ctx, acc_in, dt, result):
+    acc = np.asarray(acc_in, dtype=float)
     n = acc.shape[0] if acc.ndim == 1 else 0
-    dt = float(asig.dt)
     in_dom, pps = Q.samples_per_second(dt) if dt > 0 else (False, 0)
     if n < 1 or not np.all(np.isfinite(acc)) or not in_dom or (n - 1) < 2 * pps:
         ctx.observe('cavdp.out-of-quantifier-call')
         return
     exact = bool(HINT['exact_g']) and bool(np.all((acc / G) * G == acc))
-    r = _shape_clauses(ctx, 'cavdp', asig, result, n)
+    r = _shape_clauses(ctx, 'cavdp', acc_in, dt, result, n)
     if r is None:
         return
     got = float(r[-1])
     a = acc.tolist()
     wins = Q.cav_dp_windows(a, dt, pps, exact_g=exact)
     cav_g = Q.cav_final(a, dt) / G
-    wit = lambda: _wit(asig, 'cavdp', exact_g=exact, got_final=got, cav_over_g=cav_g, pps=pps,
+    wit = lambda: _wit('cavdp', acc_in, dt, exact_g=exact, got_final=got, cav_over_g=cav_g, pps=pps,
                        windows=[(w['w'], w['status'], w['max_g'], w['integral'], w['panel']) for w in wins])
     ctx.check(np.isfinite(got) and 0.0 <= got <= cav_g * (1 + RTOL), 'cavdp.in[0,CAV/g]', wit,
               'CAVdp final %r outside [0, CAV/9.81 = %r]' % (got, cav_g))
@@ -175,12 +199,20 @@ def check_cav_dp(ctx, asig, result):
                               sum(w['status'] == 'ambiguous' for w in wins), dt, n))
 
 
+def _pre(args, kwargs):
+    """Snapshot of the object's record at call entry: the post-condition is judged against what the function was
+    given, whatever the call (or an earlier one) did to the object."""
+    asig = _sig(args, kwargs)
+    return np.array(asig.values, copy=True), float(asig.dt)
+
+
 def _mk_post(key):
     def post(args, kwargs, result, pre):
+        acc, dt = pre
         if key == 'cavdp':
-            check_cav_dp(CTX, _sig(args, kwargs), result)
+            check_cav_dp(CTX, acc, dt, result)
         else:
-            check_quadrature(CTX, key, _sig(args, kwargs), result)
+            check_quadrature(CTX, key, acc, dt, result)
     return post
 
 
@@ -189,32 +221,66 @@ def install(ctx):
     CTX = ctx
     import eqsig
     for key, name in FN.items():
-        attach.wrap(eqsig.im, name, _mk_post(key))
+        attach.wrap(eqsig.im, name, _mk_post(key), pre=_pre)
 
 
-# ---------------------------------------------------------------------------------------------------- relations
+# ---------------------------------------------------------------------------------------------------- histories
 QUAD_KEYS = ['arias', 'cav', 'isv', 'abs_acc', 'abs_vel', 'cad', 'uke']
 SQUARE_LAW = ('arias', 'isv', 'uke')
 PAD_KEYS = ('arias', 'cav', 'abs_acc')
 
 
-def measure(ctx, eqsig, values, dt, keys=QUAD_KEYS, via_object=False):
-    """Run the real functions (monitored) on a fresh AccSignal; returns {key: series or None}."""
+def run_history(ctx, eqsig, values, dt, ops, exact=False):
+    """Drive ONE AccSignal through a sequence of operations: ['call', key] (monitored measure), ['stats'] (deprecated
+    object entry point calling arias + cav), ['read', attr], ['add_constant', c], ['reset_values', array],
+    ['butter_pass', [lo, hi]]. Every monitored call is judged by its normal post-condition against the object's
+    values at that moment. Returns {key: last series returned (or None)}."""
     out = {}
     asig = eqsig.AccSignal(values, dt)
-    if via_object:
-        try:
-            asig.generate_cumulative_stats()     # deprecated object entry point: calls im.calc_arias_intensity / calc_cav
-            ctx.observe('object.generate_cumulative_stats-call')
-        except Exception as e:
-            ctx.exception('arias.length', _wit(asig, 'arias', via='generate_cumulative_stats'), e)
-    for key in keys:
-        try:
-            out[key] = np.asarray(getattr(eqsig.im, FN[key])(asig), dtype=float)
-        except Exception as e:
-            out[key] = None
-            ctx.exception(key + '.length', _wit(asig, key), e)
+    HIST.update(on=True, acc0=np.array(values), dt=float(dt), ops=[])
+    HINT['exact_g'] = bool(exact)
+    try:
+        for op in ops:
+            HIST['ops'].append(op)
+            kind = op[0]
+            try:
+                if kind == 'call':
+                    out[op[1]] = None
+                    out[op[1]] = np.asarray(getattr(eqsig.im, FN[op[1]])(asig), dtype=float)
+                elif kind == 'stats':
+                    asig.generate_cumulative_stats()
+                    ctx.observe('object.generate_cumulative_stats-call')
+                elif kind == 'read':
+                    getattr(asig, op[1])
+                elif kind == 'add_constant':
+                    asig.add_constant(op[1])
+                elif kind == 'reset_values':
+                    asig.reset_values(op[1])
+                elif kind == 'butter_pass':
+                    asig.butter_pass(tuple(op[1]))
+                else:
+                    raise ValueError(kind)
+                if kind not in ('call', 'stats'):
+                    ctx.observe('history.' + kind)
+            except Exception as e:
+                if kind == 'call':
+                    clause = 'cavdp.final==windows+-panel' if op[1] == 'cavdp' else op[1] + '.length'
+                    ctx.exception(clause, _wit(op[1], asig.values, asig.dt, exact_g=bool(exact)), e)
+                elif kind == 'stats':
+                    ctx.exception('arias.length', _wit('arias', asig.values, asig.dt), e)
+                else:
+                    ctx.observe('history.%s-raised(not judged by C09)' % kind)
+    finally:
+        HIST['on'] = False
+        HINT['exact_g'] = False
     return out
+
+
+def measure(ctx, eqsig, values, dt, keys=QUAD_KEYS, via_object=False):
+    """All measures in a fixed order on one fresh AccSignal; returns {key: series or None}."""
+    ops = ([['stats']] if via_object else []) + [['call', k] for k in keys]
+    out = run_history(ctx, eqsig, values, dt, ops)
+    return {k: out.get(k) for k in keys}
 
 
 def _final(s):
@@ -350,14 +416,56 @@ def cavdp_case(rng, cls=None):
 
 
 def run_cavdp(ctx, eqsig, x, dt, exact):
-    asig = eqsig.AccSignal(x, dt)
-    HINT['exact_g'] = bool(exact)
-    try:
-        eqsig.im.calc_cav_dp(asig)
-    except Exception as e:
-        ctx.exception('cavdp.final==windows+-panel', _wit(asig, 'cavdp', exact_g=bool(exact)), e)
-    finally:
-        HINT['exact_g'] = False
+    run_history(ctx, eqsig, x, dt, [['call', 'cavdp']], exact=exact)
+
+
+HIST_CLASSES = ['sine', 'chirp', 'beat', 'noise', 'quake', 'alt', 'intnoise', 'zeropad', 'walk', 'hat']
+READS = ['velocity', 'displacement', 'pgv', 'pgd', 'pga']
+
+
+def history_case(rng):
+    """One record + a random same-object history: 3..8 monitored calls drawn with repeats from all measures (CAVdp
+    when the record is inside its quantifier), interleaved with reads of derived series and public mutators.
+    Returns (acc, dt, ops, class, number of sign changes of the velocity)."""
+    cls = HIST_CLASSES[int(rng.integers(len(HIST_CLASSES)))]
+    in_dom = rng.random() < 0.5
+    if in_dom:
+        dt = CAVDP_NICE_DT[int(rng.integers(len(CAVDP_NICE_DT)))] if rng.random() < 0.7 else \
+            1.0 / CAVDP_RECIP_K[int(rng.integers(len(CAVDP_RECIP_K)))]
+        pps = int(round(1.0 / dt))
+        n = int(rng.integers(2, 7)) * pps + 1 + int(rng.integers(0, pps))
+        if n > 3000:
+            n = 2 * pps + 1 + int(rng.integers(0, pps))
+    else:
+        dt = gen.dt(rng)
+        n = int(rng.choice([5, 13, 50, 200, 1000]))
+    x, _ = gen.record(rng, n, cls=cls)
+    x = np.asarray(x, dtype=float)
+    if rng.random() < 0.85 and cls not in ('alt', 'hat'):
+        # use the drawn shape as the velocity: its increments as acceleration give a velocity that oscillates about 0
+        x = np.diff(x - np.mean(x), prepend=0.0)
+        cls += '-diff'
+    m = float(np.max(np.abs(x)))
+    if in_dom and m > 0:
+        x = x * (G * GATE * rng.uniform(0.5, 6.0) / m)
+        m = float(np.max(np.abs(x)))
+    pool = QUAD_KEYS + (['cavdp'] if in_dom else [])
+    ops = []
+    for _ in range(int(rng.integers(3, 9))):
+        u = rng.random()
+        if u < 0.25:
+            ops.append(['read', READS[int(rng.integers(len(READS)))]])
+        elif u < 0.32:
+            ops.append(['add_constant', float(rng.uniform(-0.3, 0.3) * (m if m > 0 else 1.0))])
+        elif u < 0.38:
+            y, _ = gen.record(rng, n, cls=HIST_CLASSES[int(rng.integers(len(HIST_CLASSES)))])
+            ops.append(['reset_values', np.asarray(y, dtype=float) * ((m if m > 0 else 1.0) / max(float(np.max(np.abs(y))), 1e-300))])
+        elif u < 0.44 and dt <= 0.025 and n >= 100:
+            ops.append(['butter_pass', [float(rng.uniform(0.1, 1.0)), float(rng.uniform(5.0, min(15.0, 0.4 / dt)))]])
+        ops.append(['call', pool[int(rng.integers(len(pool)))]])
+    v = np.concatenate([[0.0], np.cumsum(0.5 * dt * (x[1:] + x[:-1]))])
+    sg = np.sign(v[v != 0])
+    return x, dt, ops, cls, int(np.sum(sg[1:] != sg[:-1]))
 
 
 def quadrature_case(rng):
@@ -385,6 +493,14 @@ def run_shard(ctx):
                  sample={'fn': 'calc_cav_dp', 'n': len(x), 'dt': dt, 'class': cls, 'exact_g': exact,
                          'max_g': float(np.max(np.abs(x)) / G)})
         run_cavdp(ctx, eqsig, x, dt, exact)
+    # -- same-object histories --------------------------------------------------------------------------------
+    for c in range((960 if ctx.tier == 'quick' else 16000) // ctx.nshards):
+        x, dt, ops, cls, nsign = history_case(rng)
+        ctx.case(core.digest(x, dt, repr(core.jsonable(ops)), 'hist'), nontrivial=nsign >= 3,
+                 cls='history-' + cls + ('' if nsign >= 3 else '(velocity keeps its sign)'),
+                 sample={'fn': 'same-object history', 'n': len(x), 'dt': dt, 'class': cls, 'velocity_sign_changes': nsign,
+                         'ops': [op if op[0] != 'reset_values' else ['reset_values', '<array>'] for op in ops]})
+        run_history(ctx, eqsig, x, dt, ops)
     # -- quadrature part + relations --------------------------------------------------------------------------
     for c in range(n_quad):
         x, dt, cls = quadrature_case(rng)
@@ -424,12 +540,11 @@ def replay(w):
     dt = float(w['dt'])
     if w.get('fn') == 'relation':
         relation(ctx, eqsig, acc, dt, w['kind'], alpha=w.get('alpha'), k=w.get('k'))
-    elif w.get('fn') == 'calc_cav_dp':
-        run_cavdp(ctx, eqsig, acc, dt, w.get('exact_g', False))
+    elif w.get('history'):
+        # the case is the whole history of the object up to and including the judged call
+        h = w['history']
+        run_history(ctx, eqsig, np.asarray(h['acc0']), float(h['dt']), h['ops'], exact=w.get('exact_g', False))
     else:
-        asig = eqsig.AccSignal(acc, dt)
-        if w.get('via') == 'generate_cumulative_stats':
-            asig.generate_cumulative_stats()
-        else:
-            getattr(eqsig.im, w['fn'])(asig)
+        key = [k for k, name in FN.items() if name == w['fn']][0]
+        run_history(ctx, eqsig, acc, dt, [['call', key]], exact=w.get('exact_g', False))
     return ['%s: %s' % (v['clause'], v['msg']) for v in ctx.violations]
